@@ -5,7 +5,8 @@
 From Coq Require Import List NArith ZArith.
 From Muscle Require Import Refl.Base Refl.BaseProofs Refl.Tree Refl.TreeProofs Refl.Matcher Refl.MatcherProofs
      Refl.Traverse Refl.TraverseSpec Refl.Session Refl.Server Refl.ServerProofs Refl.RefcountProofs
-     Refl.Concrete Refl.Examples.
+     Refl.Concrete Refl.Examples Refl.Mirror Refl.MirrorBase Refl.MirrorCmd Refl.MirrorFrame Refl.MirrorProofs
+     Refl.MirrorCheck Refl.MirrorExamples.
 
 (* refcount_inv (full): in every reachable state, for every node n and session id s, the node's subscriber table
    holds for s exactly the number of s's subscription paths that match n (GetMatchCount of s's _subscriptions;
@@ -63,3 +64,62 @@ Example C04_state_nontrivial :
   /\ option_map (fun n => tbl_get (n_subs n) 0%N)
        (find_node (sv_tree (run all_fixed (firstn 4 ex1) empty_server)) (1 :: 11 :: 21 :: nil)%N) = Some 2%N.
 Proof. exact ex1_nontrivial. Qed.
+
+(* mirror_converges_partial.  Premises besides MatchLaws: the three repairs are in (fx = all_fixed on the repaired tree);
+   the history is loud (no quiet flag anywhere: ev_ok) with batches nested below the server's limit; the observed
+   session o sends no explicit GETDATA and does not put an unsubscribe inside a batch, and the SUBSCRIBE: fields of each
+   of its Messages have distinct non-empty paths (ev_clean); a session arrives under a fresh (host, name) pair (wf_wrun);
+   fewer than 2^31-1 SUBSCRIBE: items.  Client-mirror rule: Refl/Mirror.v (removals first, then sets; on its own
+   unsubscribe the client drops what its remaining subscriptions no longer cover).
+   Conclusion, at the quiescent point after ANY such history (any number of sessions coming and going, creation,
+   overwrite, recursive and wildcard removal, subscription add / filter change / remove, overlapping subscriptions,
+   payload changes across a filter, any max-items-per-update, batches): the client of o holds at every path outside o's
+   own nodes exactly the node's current payload if one of o's subscriptions (path and filter) accepts it, and nothing
+   otherwise -- none missing, none stale, none extra.
+   FULL statement not yet proved: the same with quiet set/remove/subscribe (restricted to the nodes whose last change was
+   announced, lemma quiet_frame), with unsubscribes inside the observer's batches, reflect-to-self, ordered indices. *)
+Theorem C04_mirror_converges_partial :
+  forall (M : MatchOps) (L : MatchLaws M) (fx : fixes),
+  fx_guard fx = true -> fx_overlap fx = true -> fx_push fx = true ->
+  forall (evs : list event) (o : sid),
+  wf_wrun fx empty_world evs -> Forall ev_ok evs -> Forall (ev_clean o) evs -> small (run_budget evs) ->
+  forall (c : client) (ss : session),
+  In c (w_clients (world_run fx evs empty_world)) -> c_id c = o ->
+  get_session (w_srv (world_run fx evs empty_world)) o = Some ss ->
+  forall q : path, own_node ss q = false ->
+  mirror_get (c_mirror c) q = expected (sv_tree (w_srv (world_run fx evs empty_world))) ss q.
+Proof. exact @mirror_converges_partial. Qed.
+Print Assumptions C04_mirror_converges_partial.
+
+(* the repairs are necessary: with any one switched off, a clean history violates the statement
+   (witnesses replayed on the real server: findings F12, F37, F38) *)
+Theorem C04_mirror_refuted_without_F12_repair :
+  premises_b (mkFixes false true true) ex_f12 0%N = true
+  /\ holds_at (world_run (mkFixes false true true) ex_f12 empty_world) 0%N (1 :: 11 :: 30 :: 31 :: nil)%N = false
+  /\ holds_at (world_run all_fixed ex_f12 empty_world) 0%N (1 :: 11 :: 30 :: 31 :: nil)%N = true.
+Proof. exact mirror_refuted_without_F12_repair. Qed.
+Print Assumptions C04_mirror_refuted_without_F12_repair.
+
+Theorem C04_mirror_refuted_without_F37_repair :
+  premises_b (mkFixes true false true) ex_f37 0%N = true
+  /\ holds_at (world_run (mkFixes true false true) ex_f37 empty_world) 0%N (1 :: 11 :: 21 :: nil)%N = false
+  /\ holds_at (world_run all_fixed ex_f37 empty_world) 0%N (1 :: 11 :: 21 :: nil)%N = true.
+Proof. exact mirror_refuted_without_F37_repair. Qed.
+Print Assumptions C04_mirror_refuted_without_F37_repair.
+
+Theorem C04_mirror_refuted_without_F38_repair :
+  premises_b (mkFixes true true false) ex_f38 0%N = true
+  /\ holds_at (world_run (mkFixes true true false) ex_f38 empty_world) 0%N (1 :: 11 :: 21 :: nil)%N = false
+  /\ holds_at (world_run all_fixed ex_f38 empty_world) 0%N (1 :: 11 :: 21 :: nil)%N = true.
+Proof. exact mirror_refuted_without_F38_repair. Qed.
+Print Assumptions C04_mirror_refuted_without_F38_repair.
+
+(* non-vacuity of mirror_converges_partial: a history with overlapping subscriptions, filters, payload changes across a
+   filter, a batch, an unsubscribe and a departure satisfies all premises, for two observers, and is non-trivial *)
+Example C04_mirror_premises_satisfiable :
+  premises_b all_fixed exm 0%N = true /\ premises_b all_fixed exm 2%N = true.
+Proof. exact exm_premises. Qed.
+Example C04_mirror_premises_imply_hypotheses :
+  forall (M : MatchOps) (L : MatchLaws M) (fx : fixes) evs o, premises_b fx evs o = true ->
+  wf_wrun fx empty_world evs /\ Forall ev_ok evs /\ Forall (ev_clean o) evs /\ small (run_budget evs).
+Proof. exact @premises_b_spec. Qed.
